@@ -10,7 +10,7 @@ from . import adapter, fscopes, layout, par, tlc
 from .common import Check
 from .c07 import classify
 
-OPK_FREE = '{"blank", "comment", "split", "join", "eol", "case", "trail", "tcomment", "flush"}'
+OPK_FREE = '{"blank", "comment", "split", "join", "eol", "case", "trail", "tcomment", "flush", "icomment"}'
 
 
 _LAYCACHE = {}
@@ -221,7 +221,7 @@ def run(ck, tier, rnd, fixed, scale=1.0, opk_free=None):
     progs = gather_programs(ck, tier, rnd, want)
     lay_cache = {}
     jobs = []
-    opk = '{"blank", "comment", "split", "fixed"}' if fixed else (opk_free or OPK_FREE)
+    opk = '{"blank", "comment", "split", "fixed", "tcomment", "icomment"}' if fixed else (opk_free or OPK_FREE)
     for p in progs:
         n = len(p["prog"])
         if n not in lay_cache:
